@@ -364,31 +364,20 @@ def charge_scale(by, cells):
     return max(sum(abs(by[0][c][-1]["m_" + e]) * z[e] for e in gt.ELEMENTS) for c in cells if c in by[0]) or 1.0
 
 
-KMAX_JUDGED = 300   # speciations per cell between the two compared states (see oracle_inventory)
+RESIDUAL_PER_SPECIATION = 5e-12   # band of the known finding `speciation-residual-accumulates` (measured 4e-13..2e-12)
+BAND = {"stretches_over_1e-9_within_band": 0, "max_drift": 0.0, "max_drift_per_speciation": 0.0, "max_speciations": 0,
+        "by_speciations": {}}
 
 
 def oracle_inventory(case, by, cells, shifts, flux=None, kstep=1, hist=None):
     """conservation: flux=None → closed column, inventory constant; flux=(inflow cell, outflow cell) → per step
-    inventory(t) = inventory(t−1) + dissolved(inflow solution) − dissolved(outflow cell at t−1)."""
+    inventory(t) = inventory(t−1) + dissolved(inflow solution) − dissolved(outflow cell at t−1).
+    Every stretch is judged against the property's 1e-9. Entries: (name, t, expected, got, relative drift, K) with
+    K = speciations per cell between the two compared states (kstep = nmix + 1 per transport step)."""
     bad = []
     fs = inv_funcs(case)
     if 0 not in by or any(c not in by[0] for c in cells):
         return None
-    # The engine stores, after every speciation, the sums over the species (sum_species), i.e. the transported totals
-    # pick up each speciation's mass-balance residual (measured 4e-13 .. 2e-12 relative, systematic). Beyond a few
-    # hundred speciations that numerical noise alone reaches the property's 1e-9 (e.g. 650 mixruns in one step:
-    # 1.4e-9). Conservation is judged only between states at most KMAX_JUDGED speciations apart; longer stretches are
-    # counted, not judged.
-    if flux is not None and kstep > KMAX_JUDGED:
-        if hist is not None:
-            hist["long_run_not_judged"] += 1
-        return None
-    tmax = shifts if flux is not None else min(shifts, KMAX_JUDGED // max(kstep, 1))
-    if tmax < shifts and hist is not None:
-        hist["long_run_partly_judged"] += 1
-    if tmax < 1:
-        return None
-    shifts = tmax
     for name, f in fs.items():
         inv0 = col_inventory(by, 0, cells, f)
         # scale: the inventory, the largest cell value, and what the boundary solutions can bring in
@@ -401,15 +390,34 @@ def oracle_inventory(case, by, cells, shifts, flux=None, kstep=1, hist=None):
                 return None
             inv = col_inventory(by, t, cells, f)
             exp = prev
+            k = t * kstep
             if flux is not None:
                 cin, cout = flux
                 q = name if name in QUANT else "m_" + name[4:]
                 exp = prev + by[0][cin][-1][q] - by[t - 1][cout][-1][q]
+                k = kstep
             if abs(inv - exp) > TOL * max(sc, 1e-300):
-                bad.append((name, t, exp, inv, (inv - exp) / max(sc, 1e-300)))
+                bad.append((name, t, exp, inv, (inv - exp) / max(sc, 1e-300), k))
                 break
-            prev = inv
+            if flux is not None:
+                prev = inv
     return bad
+
+
+def classify_conservation(bad, kind):
+    """(kind, detail): a drift above 1e-9 that stays within (speciations between the two states) x 5e-12 relative is the
+    known finding `speciation-residual-accumulates` (the engine stores the species sums of every speciation); anything
+    beyond that band is a violation"""
+    if all(abs(x[4]) <= x[5] * RESIDUAL_PER_SPECIATION for x in bad):
+        for x in bad:
+            BAND["stretches_over_1e-9_within_band"] += 1
+            BAND["max_drift"] = max(BAND["max_drift"], abs(x[4]))
+            BAND["max_drift_per_speciation"] = max(BAND["max_drift_per_speciation"], abs(x[4]) / x[5])
+            BAND["max_speciations"] = max(BAND["max_speciations"], x[5])
+            b = "<=300" if x[5] <= 300 else "301-600" if x[5] <= 600 else "601-1200" if x[5] <= 1200 else ">1200"
+            BAND["by_speciations"][b] = BAND["by_speciations"].get(b, 0) + 1
+        return ("finding:speciation-residual-accumulates", bad[:3])
+    return (kind, bad[:3])
 
 
 def oracle_weights(res):
@@ -483,7 +491,7 @@ def direct_oracles(case, res, hist, code_nmix, plan=None):
                 if case.get("implicit") and small:
                     out.append(("finding:implicit-mcd-closed-inventory-drift", bad[:3]))
                 else:
-                    out.append(("oracle-inventory", bad[:3]))
+                    out.append(classify_conservation(bad, "oracle-inventory"))
     # (3) pure advection: exact shift
     if plain and su["flow"] != 0 and code_nmix == 0:
         bad = oracle_shift(by, n, su["flow"], shifts, allq)
@@ -500,7 +508,7 @@ def direct_oracles(case, res, hist, code_nmix, plan=None):
                 mixed_zero = 0 in ds and len(ds) > 1
                 hist["oracle_flux_balance" + ("_mixed_zero_disp" if mixed_zero else "")] += 1
                 if bad:
-                    out.append(("oracle-flux-balance", bad[:3]))
+                    out.append(classify_conservation(bad, "oracle-flux-balance"))
     return out
 
 
@@ -799,7 +807,8 @@ def report(ctx, exe, problems, limit=3, explored=0):
         for k in sorted({k for k, _ in probs if k.startswith("finding:")}):
             key = k.split(":", 1)[1]
             d = [d for kk, d in probs if kk == k][0]
-            ctx.finding(key, "closed column inventory drifts: %s" % (str(d)[:300]), {"case": c, "input": gt.render(c)})
+            ctx.finding(key, "column inventory drifts (name, step, expected, got, relative drift[, speciations per cell]): %s"
+                        % (str(d)[:300]), {"case": c, "input": gt.render(c)})
     orc = [p for p in problems if has_oracle_failure(p)]
     tie = [p for p in problems if not has_oracle_failure(p) and any(k.startswith("tie") for k, _ in p[1])]
     # protocol Q / non-convex map: targeted failing-input search on the offending configurations
@@ -854,7 +863,9 @@ RULE = ("columns from tools/gens/transport.py: 1-40 cells, one/equal/unequal/sho
         "Every plain case: reader mirror vs engine set-up, nmix + every Dispersion_mix_map entry "
         "vs model, every cell/step/quantity vs transportRun, direct oracles (incl. convexity of the code's own mixing map); "
         "on a non-convex map or a broken nmix/weight tie a targeted contrast search looks for a range violation. Variants (multi_d, implicit, stagnant, exchange, "
-        "calcite): direct oracles only. Runs are limited to 1200 (closed diffusion-only: 600) speciations per cell (shifts x (nmix+1)): the engine stores the "
+        "calcite): direct oracles only. Every conservation stretch is judged at 1e-9; a drift above it but within (speciations per cell "
+        "between the two states) x 5e-12 is the known finding speciation-residual-accumulates (counts in speciation_residual_band). "
+        "Generated plain runs are limited to 1200 (closed diffusion-only: 600) speciations per cell (shifts x (nmix+1)): the engine stores the "
         "species sums of every speciation, ~1e-13 relative residual each. distinct_nontrivial = cases in which at least one sub-mix or shift changed the column.")
 
 
@@ -876,8 +887,10 @@ def run(ctx):
     chunk = 500
     # corpus: minimised past findings, always replayed first and judged like every other case
     corpus = gt.corpus()
-    cplans = model_plans(ctx, corpus)
-    problems += check_cases(ctx, exe, [(c, cplans.get(i)) for i, c in enumerate(corpus)], hist)
+    cplain = [c for c in corpus if not is_variant(c)]
+    cplans = model_plans(ctx, cplain)
+    problems += check_cases(ctx, exe, [(c, cplans.get(i)) for i, c in enumerate(cplain)], hist)
+    problems += check_variants(ctx, exe, [c for c in corpus if is_variant(c)], hist)
     hist["corpus_cases"] = len(corpus)
     while done < nplain and not any(has_oracle_failure(p) for p in problems):
         cases = gen_cases(ctx, min(chunk, nplain - done), budget)
@@ -906,6 +919,7 @@ def run(ctx):
     ctx.cov["traces_validated_against_impl"] = hist["cases"]
     ctx.cov["histogram"] = dict(sorted(hist.items()))
     ctx.cov["rule"] = RULE
+    ctx.cov["speciation_residual_band"] = dict(BAND, band="drift <= speciations x %g relative" % RESIDUAL_PER_SPECIATION)
     ctx.cov["tolerances"] = {"mixing factors (relative)": MIXTOL, "cell values / inventories (relative to column scale)": TOL}
     if not ok and not ctx.violations:
         ctx.violation("proof obligation of C11 no longer checks and no failing input was found",
